@@ -85,6 +85,10 @@ pub enum EOp {
     /// one of the many operator impls (by value / by reference, Element / AffinePoint operands on either
     /// side, assigning forms, scalar on the left, sums over affine iterators), selected by number
     OperatorForm(u8, usize, usize, Hex),
+    /// R1CS side door of the public API: an `ElementVar` allocated from this field element (witness mode
+    /// when the flag is false, public input otherwise) in a fresh constraint system, then `value()`. For an
+    /// invalid encoding there is no element to hand out (an error or a panic is fine; the identity is pooled)
+    GadgetValue(Hex, bool),
 }
 
 #[derive(Clone, Debug, Serialize, Deserialize, PartialEq, Eq)]
